@@ -336,13 +336,17 @@ def rule_paxis(ctx):
             if not isinstance(n, ast.Subscript):
                 continue
             nm = _dp_name(n.value)
+            from_derived = False
             if nm is None and isinstance(n.value, ast.Name) and n.value.id in derived:
                 nm = n.value.id
+                from_derived = True
             if nm is None or nm in nondp:
                 continue
             ix = _axis1(n)
             if ix is None:
                 continue
+            if from_derived and not (isinstance(ix, ast.Constant) and isinstance(ix.value, int) and not isinstance(ix.value, bool)):
+                continue        # for a derived local only a literal direction index is judged (its loops may run over names this rule does not know)
             n_sub += 1
             vars_ = in_loop.get(id(n), [])
             if _is_full_slice(ix) or (isinstance(ix, ast.Slice) and ix.step is None and ix.upper is not None and isinstance(ix.upper, ast.Name)
